@@ -1,5 +1,6 @@
 // xvexec: general executor -- kind=parse (see xvcommon.hpp runParse)
 #include "xvcommon.hpp"
+#include <xercesc/validators/common/Grammar.hpp>
 using namespace xv;
 
 // src=stdin: StdInInputSource reads fd 0, which is the protocol pipe here -- run that parse in a forked child whose fd 0 is the document
@@ -36,10 +37,218 @@ static std::string hParse(const Req& r) {
     return out;
 }
 
+// ---------------------------------------------------------------------------------------------
+// kind=session (C15): a history of operations on ONE parser object; every parse in the history is compared, in-process, with the
+// same parse on a freshly constructed parser that was given the same feature string and the same persistent state (grammars loaded
+// or cached since the last pool reset).  Response: one "OP\t<i>\t<verdict>" line per op; for DIFF both dumps follow.
+//   ops (fields op0..opN-1):  parse <doc> [chunks] | pparse <doc> <steps> | throw <doc> <k> | feat <featstring> |
+//                             loadgrammar <g> <dtd|xsd> <cache> | resetdocpool | resetgrammarpool | adopt
+//   docs: doc<i> (bytes), docsys<i> (system id); grammars: g<i>, gsys<i>; ent:<sysid> shared entity store
+// ---------------------------------------------------------------------------------------------
+struct PBox {
+    EntStore* st; MemResolver* res; MemLSResolver* lres; SecurityManager sm; Feat feat;
+    virtual ~PBox() {}
+    virtual void config(const Feat& f) = 0;
+    // mode 0 parse, 1 progressive abandoned after `arg` steps, 2 handler throws at callback `arg`
+    virtual std::string run(const std::string& doc, const std::string& sys, const std::string& chunks, int mode, long arg) = 0;
+    virtual std::string loadGrammar(const std::string& g, const std::string& sys, bool xsd, bool cache) = 0;
+    virtual void resetDocPool() {}
+    virtual void resetGrammarPool() = 0;
+    virtual bool adopt(std::string& dump) { return false; }
+    virtual std::string redumpAdopted(size_t i) { return ""; }
+    virtual size_t nAdopted() { return 0; }
+};
+template <class P, class H, int KIND> struct SaxBox : public PBox {
+    P p;
+    SaxBox(EntStore* s) { st = s; res = new MemResolver(*s); lres = 0; sm.setEntityExpansionLimit(1000); p.setXMLEntityResolver(res); }
+    ~SaxBox() { delete res; }
+    void config(const Feat& f) { feat = f; cfg(f); }
+    void cfg(const Feat& f);
+    void hook(H& h);
+    std::string run(const std::string& doc, const std::string& sys, const std::string& chunks, int mode, long arg) {
+        Dump d; d.withLoc = true; if (mode == 2) d.throwAt = arg;
+        H h(d); p.xd = &d; hook(h);
+        X sysx(sys); ChunkSource src(doc, parsePlan(chunks), sysx.c());
+        try {
+            if (mode == 1) { XMLPScanToken tok; if (p.parseFirst(src, tok)) { long k = 0; while (k < arg && p.parseNext(tok)) k++; p.parseReset(tok); } d.line("ABANDONED"); }
+            else p.parse(src);
+        }
+        XV_CATCH_ALL(d)
+        p.xd = 0;
+        return d.finish();
+    }
+    std::string loadGrammar(const std::string& g, const std::string& sys, bool xsd, bool cache) {
+        Dump d; H h(d); p.xd = &d; hook(h);
+        MemBufInputSource src((const XMLByte*)g.data(), g.size(), X(sys).c());
+        try { p.loadGrammar(src, xsd ? Grammar::SchemaGrammarType : Grammar::DTDGrammarType, cache); }
+        XV_CATCH_ALL(d)
+        p.xd = 0;
+        return d.finish();
+    }
+    void resetGrammarPool() { p.resetCachedGrammarPool(); }
+};
+template <> void SaxBox<CapSAXParser, Sax1Dump, 1>::cfg(const Feat& f) { configClassic(p, f, &sm); }
+template <> void SaxBox<CapSAXParser, Sax1Dump, 1>::hook(Sax1Dump& h) { p.setDocumentHandler(&h); p.setDTDHandler(&h); p.setErrorHandler(&h); }
+template <> void SaxBox<CapSAX2, Sax2Dump, 2>::cfg(const Feat& f) { configSAX2(p, f, &sm); }
+template <> void SaxBox<CapSAX2, Sax2Dump, 2>::hook(Sax2Dump& h) { p.setContentHandler(&h); p.setLexicalHandler(&h); p.setDeclarationHandler(&h); p.setDTDHandler(&h); p.setErrorHandler(&h); }
+
+struct DomBox : public PBox {
+    CapDOMParser p; std::vector<DOMDocument*> adopted; std::vector<std::string> adoptedDump;
+    DomBox(EntStore* s) { st = s; res = new MemResolver(*s); lres = 0; sm.setEntityExpansionLimit(1000); p.setXMLEntityResolver(res); }
+    ~DomBox() { for (size_t i = 0; i < adopted.size(); i++) adopted[i]->release(); delete res; }
+    void config(const Feat& f) { feat = f; configDOM(p, f, &sm); }
+    std::string dumpDoc(DOMDocument* dd) { Dump d; DomDumpOpts o; o.typeInfo = feat.b("psvi", false); o.ids = true; if (dd) dumpDomNode(d, dd, o); return d.finish(); }
+    std::string run(const std::string& doc, const std::string& sys, const std::string& chunks, int mode, long arg) {
+        Dump d; Sax1Dump eh(d); p.xd = &d; p.setErrorHandler(&eh);
+        X sysx(sys); ChunkSource src(doc, parsePlan(chunks), sysx.c());
+        bool done = true;
+        try {
+            if (mode == 1) { XMLPScanToken tok; if (p.parseFirst(src, tok)) { long k = 0; while (k < arg && p.parseNext(tok)) k++; p.parseReset(tok); } d.line("ABANDONED"); done = false; }
+            else p.parse(src);
+        }
+        XV_CATCH_ALL(d)
+        p.xd = 0; p.setErrorHandler(0);
+        std::string out = d.finish();
+        if (done && p.getDocument()) { DomDumpOpts o; o.typeInfo = feat.b("psvi", false); Dump dd; dumpDomNode(dd, p.getDocument(), o); out += dd.finish(); }
+        return out;
+    }
+    std::string loadGrammar(const std::string& g, const std::string& sys, bool xsd, bool cache) {
+        Dump d; Sax1Dump eh(d); p.xd = &d; p.setErrorHandler(&eh);
+        MemBufInputSource src((const XMLByte*)g.data(), g.size(), X(sys).c());
+        try { p.loadGrammar(src, xsd ? Grammar::SchemaGrammarType : Grammar::DTDGrammarType, cache); }
+        XV_CATCH_ALL(d)
+        p.xd = 0; p.setErrorHandler(0);
+        return d.finish();
+    }
+    void resetDocPool() { p.resetDocumentPool(); }
+    void resetGrammarPool() { p.resetCachedGrammarPool(); }
+    std::vector<bool> adoptedPsvi;
+    std::string dumpDocP(DOMDocument* dd, bool psvi) { Dump d; DomDumpOpts o; o.typeInfo = psvi; o.ids = true; if (dd) dumpDomNode(d, dd, o); return d.finish(); }
+    bool adopt(std::string& dump) {
+        DOMDocument* cur = p.getDocument(); if (!cur) return false;
+        for (size_t i = 0; i < adopted.size(); i++) if (adopted[i] == cur) return false;      // already ours
+        DOMDocument* dd = p.adoptDocument(); if (!dd) return false;
+        bool ps = feat.b("psvi", false);
+        adopted.push_back(dd); adoptedPsvi.push_back(ps); dump = dumpDocP(dd, ps); adoptedDump.push_back(dump); return true;
+    }
+    std::string redumpAdopted(size_t i) { return dumpDocP(adopted[i], adoptedPsvi[i]); }
+    size_t nAdopted() { return adopted.size(); }
+};
+struct LSBox : public PBox {
+    CapDOMLS* p; LSErr eh;
+    LSBox(EntStore* s) { st = s; res = 0; lres = new MemLSResolver(*s); sm.setEntityExpansionLimit(1000); p = new CapDOMLS();
+                         p->getDomConfig()->setParameter(XMLUni::fgDOMErrorHandler, &eh); p->getDomConfig()->setParameter(XMLUni::fgDOMResourceResolver, lres); }
+    ~LSBox() { p->release(); delete lres; }
+    void config(const Feat& f) { feat = f; configDOMLS(*p, f, &sm); }
+    std::string run(const std::string& doc, const std::string& sys, const std::string& chunks, int mode, long arg) {
+        Dump d; p->xd = &d;
+        X sysx(sys); ChunkSource src(doc, parsePlan(chunks), sysx.c()); Wrapper4InputSource in(&src, false);
+        DOMDocument* dd = 0;
+        try { dd = p->parse(&in); }
+        XV_CATCH_ALL(d)
+        p->xd = 0;
+        std::string out = d.finish();
+        if (dd) { DomDumpOpts o; o.typeInfo = feat.b("psvi", false); Dump x; dumpDomNode(x, dd, o); out += x.finish(); }
+        return out;
+    }
+    std::string loadGrammar(const std::string& g, const std::string& sys, bool xsd, bool cache) {
+        Dump d; p->xd = &d;
+        MemBufInputSource src((const XMLByte*)g.data(), g.size(), X(sys).c()); Wrapper4InputSource in(&src, false);
+        try { p->loadGrammar(&in, xsd ? Grammar::SchemaGrammarType : Grammar::DTDGrammarType, cache); }
+        XV_CATCH_ALL(d)
+        p->xd = 0;
+        return d.finish();
+    }
+    void resetDocPool() { p->resetDocumentPool(); }
+    void resetGrammarPool() { p->resetCachedGrammarPool(); }
+};
+static PBox* makeBox(const std::string& api, EntStore* st) {
+    if (api == "sax1") return new SaxBox<CapSAXParser, Sax1Dump, 1>(st);
+    if (api == "sax2") return new SaxBox<CapSAX2, Sax2Dump, 2>(st);
+    if (api == "domls") return new LSBox(st);
+    return new DomBox(st);
+}
+
+// persistent entries: "loadgrammar <g> <dtd|xsd> <cache> <featstring-at-that-time>"
+static void replayPersistent(PBox* ref, const std::vector<std::string>& persistent, const Req& r, const std::string& curFeat) {
+    for (size_t k = 0; k < persistent.size(); k++) {
+        std::vector<std::string> po = split(persistent[k], ' ');
+        ref->config(Feat(po.size() > 4 ? po[4] : curFeat));
+        ref->loadGrammar(get(r, "g" + po[1]), get(r, "gsys" + po[1], "mem:/g" + po[1]), po[2] == "xsd", true);
+    }
+    ref->config(Feat(curFeat));
+}
+
+static std::string hSession(const Req& r) {
+    std::string api = get(r, "api", "sax2");
+    EntStore st; st.load(r);
+    PBox* box = makeBox(api, &st);
+    std::string curFeat = get(r, "feat"); box->config(Feat(curFeat));
+    std::string curScanner = Feat(curFeat).s("scanner", "IG");
+    std::vector<std::string> persistent;           // ops that legitimately persist (replayed on the reference parser)
+    std::string out;
+    long n = geti(r, "n", 0);
+    bool dirty = false;                             // a failed / abandoned / aborted parse happened before
+    for (long i = 0; i < n; i++) {
+        std::vector<std::string> op = split(get(r, "op" + std::to_string(i)), ' ');
+        std::string head = "OP\t" + std::to_string(i) + "\t" + op[0] + "\t";
+        if (op[0] == "feat") {
+            curFeat = op.size() > 1 ? op[1] : "";
+            Feat nf(curFeat);
+            // keep the scanner OBJECT when its kind does not change (re-creating it would wipe exactly the state this check is after)
+            if (nf.s("scanner", "IG") == curScanner) nf.m.erase("scanner"); else curScanner = nf.s("scanner", "IG");
+            box->config(nf); box->feat = Feat(curFeat);
+            out += head + "OK\n";
+        }
+        else if (op[0] == "resetdocpool") { box->resetDocPool(); out += head + "OK\n"; }
+        else if (op[0] == "resetgrammarpool") { box->resetGrammarPool(); persistent.clear(); out += head + "OK\n"; }
+        else if (op[0] == "adopt") { std::string d; out += head + (box->adopt(d) ? "OK" : "NONE") + "\n"; }
+        else if (op[0] == "loadgrammar") {
+            std::string g = get(r, "g" + op[1]), sys = get(r, "gsys" + op[1], "mem:/g" + op[1]);
+            bool xsd = op[2] == "xsd", cache = op[3] == "1";
+            std::string got = box->loadGrammar(g, sys, xsd, cache);
+            // reference: same call on a fresh parser with the same persistent state
+            EntStore st2; st2.load(r); PBox* ref = makeBox(api, &st2); ref->config(Feat(curFeat));
+            replayPersistent(ref, persistent, r, curFeat);
+            std::string exp = ref->loadGrammar(g, sys, xsd, cache);
+            delete ref;
+            if (cache && got.find("ERR\t") == std::string::npos && got.find("EXC\t") == std::string::npos) persistent.push_back(get(r, "op" + std::to_string(i)) + " " + curFeat);
+            out += head + (got == exp ? "OK" : "DIFF") + "\n";
+            if (got != exp) out += "<<<history\n" + got + "===fresh\n" + exp + ">>>\n";
+        }
+        else if (op[0] == "parse" || op[0] == "pparse" || op[0] == "throw") {
+            std::string doc = get(r, "doc" + op[1]), sys = get(r, "docsys" + op[1], "mem:/doc" + op[1] + ".xml");
+            int mode = op[0] == "parse" ? 0 : op[0] == "pparse" ? 1 : 2;
+            long arg = mode ? atol(op[2].c_str()) : 0;
+            std::string chunks = (mode == 0 && op.size() > 2) ? op[2] : "";
+            std::string got = box->run(doc, sys, chunks, mode, arg);
+            EntStore st2; st2.load(r); PBox* ref = makeBox(api, &st2); ref->config(Feat(curFeat));
+            replayPersistent(ref, persistent, r, curFeat);
+            std::string exp = ref->run(doc, sys, "", mode, arg);
+            delete ref;
+            bool bad = got.find("\tF\t") != std::string::npos || got.find("EXC\t") != std::string::npos || mode != 0;
+            out += head + (got == exp ? "OK" : "DIFF") + (dirty ? "\tafter-dirty" : "\tclean") + (bad ? "\tbad" : "\tgood") + "\n";
+            if (got != exp) out += "<<<history\n" + got + "===fresh\n" + exp + ">>>\n";
+            if (bad) dirty = true;
+        }
+        else out += head + "BADOP\n";
+    }
+    // adopted documents must be intact at the end
+    DomBox* db = dynamic_cast<DomBox*>(box);
+    if (db) for (size_t i = 0; i < db->nAdopted(); i++) {
+        std::string now = db->redumpAdopted(i);
+        out += std::string("ADOPTED\t") + std::to_string(i) + "\t" + (now == db->adoptedDump[i] ? "OK" : "DIFF") + "\n";
+        if (now != db->adoptedDump[i]) out += "<<<at-adoption\n" + db->adoptedDump[i] + "===at-end\n" + now + ">>>\n";
+    }
+    delete box;
+    return out;
+}
+
 int main() {
     XMLPlatformUtils::Initialize();
     std::map<std::string, Handler> hs;
     hs["parse"] = hParse;
+    hs["session"] = hSession;
     int rc = serve(hs);
     XMLPlatformUtils::Terminate();
     return rc;
